@@ -1,0 +1,145 @@
+//go:build verif
+// +build verif
+
+// Contracts for package par1, checked by /verif/gocv (build tag "verif").
+
+package par1
+
+// Delegate callbacks are assumed not to touch gopar state or the filesystem.
+//@ iface-pure DecoderDelegate VerifyDelegate RepairDelegate EncoderDelegate CreateDelegate
+
+// The filesystem behind fileIO does not touch gopar's memory.
+//@ func (fileIO).ReadFile
+//@   assume-contract environment: ioutil.ReadFile / memfs
+//@   modifies nothing
+//@ func (fileIO).WriteFile
+//@   assume-contract environment: ioutil.WriteFile / memfs
+//@   modifies nothing
+
+// ---- header.go, file_entry.go, volume.go: parsers of untrusted bytes ----------
+
+//@ func (versionNumber).version
+//@   props C13 C19 C10
+//@   pure
+
+//@ func readHeader
+//@   props C13 C19 C10
+//@   modifies *buf
+//@   ensures implies(result1 == nil, old(buflen(buf)) >= 96 && buflen(buf) == old(buflen(buf)) - 96)
+
+//@ func (fileEntryStatus).savedInVolumeSet
+//@   props C13 C19 C10 C04
+//@   pure
+//@   ensures result == (uint64(s) % 2 == 1)
+
+//@ func sizeOfFileEntryHeader
+//@   props C13 C19 C10
+//@   pure
+//@   ensures result == 56
+
+//@ func decodeUTF16LEString
+//@   props C13 C19 C10
+//@   modifies nothing
+
+//@ func readFileEntry
+//@   props C13 C19 C10
+//@   modifies *buf
+
+//@ func readVolume
+//@   props C13 C19 C10
+//@   modifies nothing
+//@   ensures implies(result1 == nil, mathint(len(result0.entries)) == mathint(result0.header.FileCount))
+//@   loop 0
+//@     invariant mathint(len(entries)) == mathint(header.FileCount) && fresh(entries) && fresh(buf)
+//@     invariant cap(setHashInput) == 0 || fresh(setHashInput)
+
+// ---- decoder.go ---------------------------------------------------------------------
+
+//@ pred decoderOK(d) = d.fileIO != nil && d.delegate != nil
+
+//@ func newDecoder
+//@   props C13 C19 C10 C04
+//@   requires fileIO != nil && delegate != nil
+//@   ensures implies(result1 == nil, result0 != nil)
+
+//@ func newDecoder$1
+//@   props C13 C19 C10 C04
+//@   nilable *
+//@   requires fileIO != nil
+//@   modifies nothing
+
+//@ func sixteenKHash
+//@   props C13 C19 C02 C10 C04
+//@   modifies nothing
+//@   ensures result == md5(bytes(data[:min(len(data), 16384)]))
+
+//@ func (*Decoder).getFilePath
+//@   props C13 C19 C15
+//@   modifies nothing
+
+//@ func (*Decoder).volumePath
+//@   props C13 C19
+//@   panics volumeNumber == 0
+//@   modifies nothing
+
+//@ func (*Decoder).LoadFileData
+//@   props C13 C19 C04
+//@   requires decoderOK(d)
+//@   loop 0
+//@     invariant d == old(d) && decoderOK(d) && (cap(fileData) == 0 || fresh(fileData))
+
+//@ func (*Decoder).LoadFileData$1
+//@   props C13 C19 C04 C02
+//@   nilable *
+//@   requires d != nil && decoderOK(d)
+//@   modifies nothing
+//@   ensures implies(!result1 && result2 == nil, md5(bytes(result0)) == entry.header.Hash && md5(bytes(result0[:min(len(result0), 16384)])) == entry.header.SixteenKHash)
+
+//@ func (*Decoder).LoadParityData
+//@   props C13 C19 C04
+//@   requires decoderOK(d)
+//@   loop 0
+//@     invariant d == old(d) && decoderOK(d) && fresh(parityData) && mathint(len(parityData)) == mathint(maxParityVolumeCount) && maxI < maxParityVolumeCount || maxParityVolumeCount == 0 && maxI == 0 && d == old(d) && decoderOK(d) && len(parityData) == 0
+
+//@ func (*Decoder).LoadParityData$1
+//@   props C13 C19 C04
+//@   nilable *
+//@   requires d != nil && decoderOK(d)
+//@   modifies *&shardByteCount
+
+//@ func (*Decoder).buildShards
+//@   props C13 C19 C04
+//@   requires d.shardByteCount >= 0 && d.shardByteCount <= 70368744177664
+//@   fresh result
+//@   preserves refs d
+//@   ensures result != nil && len(result) == len(d.fileData) + len(d.parityData)
+//@   loop 0
+//@     invariant forall(k, 0, rangeindex + 1, len(d.fileData[k]) <= shardByteCount) && shardByteCount >= 0 && shardByteCount <= 70368744177664
+//@   loop 1
+//@     invariant fresh(shards) && !fresh(d.fileData) && len(shards) == len(d.fileData) + len(d.parityData) && shardByteCount >= 0 && shardByteCount <= 70368744177664
+//@     invariant forall(k, 0, len(d.fileData), len(d.fileData[k]) <= shardByteCount)
+//@   loop 2
+//@     invariant fresh(shards) && len(shards) == len(d.fileData) + len(d.parityData)
+
+//@ func (*Decoder).newReedSolomon
+//@   props C13 C19 C04
+//@   modifies nothing
+//@   ensures implies(result1 == nil, result0 != nil)
+
+//@ func (*Decoder).FileCounts
+//@   props C13 C19 C04
+//@   modifies nothing
+
+//@ func (*Decoder).VerifyAllData
+//@   props C13 C19 C04
+//@   requires d.shardByteCount >= 0 && d.shardByteCount <= 70368744177664
+
+//@ func (*Decoder).Repair
+//@   props C13 C19 C04 C02
+//@   requires decoderOK(d) && d.shardByteCount >= 0 && d.shardByteCount <= 70368744177664
+//@   loop 0
+//@     invariant decoderOK(d)
+//@     invariant fresh(shards)
+//@     invariant len(shards) == len(d.fileData) + len(d.parityData)
+//@     invariant i >= -1 && i < len(d.fileData) + 0 || i == -1
+//@     invariant cap(repairedPaths) == 0 || fresh(repairedPaths)
